@@ -13,6 +13,80 @@ pub mod stdlib;
 
 use liquid_core::Error;
 
+/// Total order used by the `sort` filters.
+///
+/// The value model only orders values of the same kind (and not `NaN`).  Sorting needs a total
+/// order, otherwise the result depends on the initial order and `sort_by` may even panic, so
+/// values that cannot be compared are grouped by kind: numbers, strings, booleans, dates,
+/// arrays, objects.  Wherever the value model defines an order this agrees with it.
+#[cfg(any(feature = "stdlib", feature = "jekyll"))]
+pub(crate) fn sort_order(
+    a: &dyn liquid_core::ValueView,
+    b: &dyn liquid_core::ValueView,
+) -> std::cmp::Ordering {
+    use liquid_core::model::ValueViewCmp;
+    use std::cmp::Ordering;
+
+    fn rank(v: &dyn liquid_core::ValueView) -> u8 {
+        match v.type_name() {
+            "whole number" | "fractional number" => 0,
+            "string" => 1,
+            "boolean" => 2,
+            "date" | "date time" => 3,
+            "array" => 4,
+            "object" => 5,
+            _ => 6,
+        }
+    }
+
+    let by_rank = rank(a).cmp(&rank(b));
+    if by_rank != Ordering::Equal {
+        return by_rank;
+    }
+    if let (Some(x), Some(y)) = (a.as_array(), b.as_array()) {
+        let mut x = x.values();
+        let mut y = y.values();
+        loop {
+            match (x.next(), y.next()) {
+                (None, None) => return Ordering::Equal,
+                (None, Some(_)) => return Ordering::Less,
+                (Some(_), None) => return Ordering::Greater,
+                (Some(x), Some(y)) => {
+                    let order = sort_order(x, y);
+                    if order != Ordering::Equal {
+                        return order;
+                    }
+                }
+            }
+        }
+    }
+    if let (Some(x), Some(y)) = (a.as_object(), b.as_object()) {
+        let mut x: Vec<_> = x.iter().collect();
+        x.sort_by(|a, b| a.0.cmp(&b.0));
+        let mut y: Vec<_> = y.iter().collect();
+        y.sort_by(|a, b| a.0.cmp(&b.0));
+        let mut x = x.into_iter();
+        let mut y = y.into_iter();
+        loop {
+            match (x.next(), y.next()) {
+                (None, None) => return Ordering::Equal,
+                (None, Some(_)) => return Ordering::Less,
+                (Some(_), None) => return Ordering::Greater,
+                (Some((xk, xv)), Some((yk, yv))) => {
+                    let order = xk.cmp(&yk).then_with(|| sort_order(xv, yv));
+                    if order != Ordering::Equal {
+                        return order;
+                    }
+                }
+            }
+        }
+    }
+    ValueViewCmp::new(a)
+        .partial_cmp(&ValueViewCmp::new(b))
+        // `NaN`: fall back to the printed form
+        .unwrap_or_else(|| a.to_kstr().as_str().cmp(b.to_kstr().as_str()))
+}
+
 pub(crate) fn invalid_input<S>(cause: S) -> Error
 where
     S: Into<liquid_core::model::KString>,
